@@ -1,60 +1,236 @@
-(* C10 — Plan capacity is exact, order-preserving and never leaks. Theorems only.
-   Part 1 (this file, so far): the slot allocator under the plan, TaskListT. For every capacity 1..255 and
-   every sequence of emplace / remove / clear of any length, the free-list invariant FL holds, emplace
-   succeeds exactly when fewer than CAPACITY slots are occupied, returns a slot that was free, never
-   disturbs an occupied slot, and the full capacity is available again whenever the list is empty. *)
-From Coq Require Import List Arith Lia.
-From FFSM2 Require Import Model.TaskList Proofs.TaskListProofs Proofs.TaskListRun.
+(* C10 - Plan capacity is exact, order-preserving and never leaks. Theorems only. Three layers. (1) TaskListT, the slot
+   allocator with an intrusive free list: invariant FL t vac occ (vac = the vacant slots chained from the head, occ =
+   the occupied slots with their contents); (2) the plan = doubly linked order over those slots (PlanInv d order;
+   tasks_of d order = the plan as a list of tasks), with the C++ iterator that caches the next index;
+   plan_refines_list: over operation lists of any length (append, append with payload, remove through an iterator at
+   position k, clear) the model returns exactly what a bounded list returns; (3) the machine: in every reachable state
+   the plan satisfies the invariant and, when empty, offers the whole capacity again. For every capacity 1..255. *)
+From Coq Require Import List Arith Bool NArith.
+From FFSM2 Require Import Model.TaskList Model.BitArray Model.BitStream Model.Plan Model.Ancestors Model.Machine
+  Proofs.BitArrayProofs Proofs.TaskListProofs Proofs.TaskListRun Proofs.PlanProofs Proofs.MachineFrame Proofs.MachinePlan Proofs.MachineLife Proofs.GuardProofs Proofs.CycleProofs Proofs.PlanStep
+  Proofs.SerialProofs Proofs.LogProofs Proofs.MachineTop Model.Multi Generated.InitFacts Proofs.ConstructProofs Proofs.LifeMonitor Proofs.ActivationRounds Proofs.IndexSafety Proofs.FeatureProofs.
 Import ListNotations.
 
-Theorem C10_tasklist_init : forall (P : Type) cap, 1 <= cap <= 255 -> FL P cap (tl_init P cap) [0] [].
-Proof. exact init_FL. Qed.
+(* every history of plan edits, any length: returned values (append succeeded / refused, the tasks an iterating removal
+   visited) and the plan as seen afterwards equal those of the obvious bounded list *)
+Theorem C10_plan_refines_a_bounded_list :
+  forall (P : Type) (cap n : nat) (ops : list (plan_op P)),
+         1 <= cap <= 255 -> model_run P cap n (pd_init P cap n) ops = abs_run P cap (abs_init P) ops.
+Proof. exact (plan_refines_list). Qed.
+Print Assumptions C10_plan_refines_a_bounded_list.
+
+Theorem C10_invariant_over_histories :
+  forall (P : Type) (cap n : nat) (ops : list (plan_op P)),
+         1 <= cap <= 255 ->
+         exists order : list nat,
+           PlanInv P cap (model_state P cap n (pd_init P cap n) ops) order /\
+           length order <= cap /\
+           tasks_of P (model_state P cap n (pd_init P cap n) ops) order =
+           a_tasks P (abs_state P cap (abs_init P) ops) /\
+           plan_tasks P cap (model_state P cap n (pd_init P cap n) ops) =
+           a_tasks P (abs_state P cap (abs_init P) ops) /\
+           pd_exists (model_state P cap n (pd_init P cap n) ops) =
+           a_exists P (abs_state P cap (abs_init P) ops).
+Proof. exact (plan_run_inv). Qed.
+Print Assumptions C10_invariant_over_histories.
+
+(* append succeeds exactly when fewer than capacity tasks are present, adds at the end, leaves everything else alone;
+   otherwise returns false and changes nothing *)
+Theorem C10_append :
+  forall (P : Type) (cap : nat) (d : plan_data P) (order : list nat) (o dst : nat),
+         PlanInv P cap d order ->
+         if length order <? cap
+         then
+          exists (i : nat) (d' : plan_data P),
+            plan_append P cap d o dst = (d', true) /\
+            ~ In i order /\
+            PlanInv P cap d' (order ++ [i]) /\
+            tasks_of P d' (order ++ [i]) = tasks_of P d order ++ [mk_task P o dst None] /\
+            pd_exists d' = true /\ same_aux P d d'
+         else plan_append P cap d o dst = (d, false).
+Proof. exact (plan_append_spec). Qed.
+Print Assumptions C10_append.
+
+Theorem C10_append_with_payload :
+  forall (P : Type) (cap : nat) (d : plan_data P) (order : list nat) (o dst : nat) (p : P),
+         PlanInv P cap d order ->
+         if length order <? cap
+         then
+          exists (i : nat) (d' : plan_data P),
+            plan_append_with P cap d o dst p = (d', true) /\
+            ~ In i order /\
+            PlanInv P cap d' (order ++ [i]) /\
+            tasks_of P d' (order ++ [i]) = tasks_of P d order ++ [mk_task P o dst (Some p)] /\
+            pd_exists d' = true /\ same_aux P d d'
+         else plan_append_with P cap d o dst p = (pd_with_exists P d true, false).
+Proof. exact (plan_append_with_spec). Qed.
+Print Assumptions C10_append_with_payload.
+
+(* the iterator with cached next yields precisely the tasks appended and not yet removed, in append order *)
+Theorem C10_iteration_yields_the_tasks_in_order :
+  forall (P : Type) (cap : nat) (d : plan_data P) (order : list nat),
+         PlanInv P cap d order -> plan_tasks P cap d = tasks_of P d order.
+Proof. exact (plan_tasks_spec). Qed.
+Print Assumptions C10_iteration_yields_the_tasks_in_order.
+
+Theorem C10_first_last :
+  forall (P : Type) (cap : nat) (d : plan_data P) (order : list nat) (dflt : task P),
+         PlanInv P cap d order ->
+         order <> [] ->
+         plan_first P d = hd dflt (tasks_of P d order) /\ plan_last P d = last (tasks_of P d order) dflt.
+Proof. exact (plan_first_last_spec). Qed.
+Print Assumptions C10_first_last.
+
+Theorem C10_nonempty :
+  forall (P : Type) (cap : nat) (d : plan_data P) (order : list nat),
+         PlanInv P cap d order -> plan_nonempty P cap d = negb (length order =? 0).
+Proof. exact (plan_nonempty_spec). Qed.
+Print Assumptions C10_nonempty.
+
+(* removing any task keeps the others, their contents and their order *)
+Theorem C10_remove_anywhere :
+  forall (P : Type) (cap : nat) (d : plan_data P) (l1 : list nat) (x : nat) (l2 : list nat),
+         PlanInv P cap d (l1 ++ x :: l2) ->
+         PlanInv P cap (plan_remove P cap d x) (l1 ++ l2) /\
+         (forall i : nat, In i (l1 ++ l2) -> task_at P (plan_remove P cap d x) i = task_at P d i) /\
+         tasks_of P (plan_remove P cap d x) (l1 ++ l2) = tasks_of P d (l1 ++ l2) /\
+         same_rest P d (plan_remove P cap d x).
+Proof. exact (plan_remove_spec). Qed.
+Print Assumptions C10_remove_anywhere.
+
+(* removing through an iterator does not disturb the iteration over the rest: every task is still visited once, in
+   order *)
+Theorem C10_remove_while_iterating :
+  forall (P : Type) (cap : nat) (d : plan_data P) (order : list nat) (k : nat),
+         PlanInv P cap d order ->
+         exists d' : plan_data P,
+           plan_remove_at P cap d k = (d', tasks_of P d order) /\
+           (if k <? length order
+            then
+             PlanInv P cap d' (remove_nth k order) /\
+             tasks_of P d' (remove_nth k order) = remove_nth k (tasks_of P d order) /\ same_rest P d d'
+            else d' = d).
+Proof. exact (plan_remove_at_spec). Qed.
+Print Assumptions C10_remove_while_iterating.
+
+Theorem C10_clear :
+  forall (P : Type) (cap n : nat) (d : plan_data P) (order : list nat),
+         PlanInv P cap d order ->
+         PlanInv P cap (plan_clear P cap n d) [] /\
+         plan_tasks P cap (plan_clear P cap n d) = [] /\
+         pd_exists (plan_clear P cap n d) = pd_exists d /\
+         pd_head_status (plan_clear P cap n d) = pd_head_status d /\
+         pd_sub_status (plan_clear P cap n d) = pd_sub_status d /\
+         pd_succ (plan_clear P cap n d) = clear_bits n (pd_succ d) /\
+         pd_fail (plan_clear P cap n d) = clear_bits n (pd_fail d).
+Proof. exact (plan_clear_spec). Qed.
+Print Assumptions C10_clear.
+
+Theorem C10_data_clear :
+  forall (P : Type) (cap : nat) (d : plan_data P) (order : list nat),
+         PlanInv P cap d order ->
+         PlanInv P cap (pd_clear P d) [] /\
+         plan_tasks P cap (pd_clear P d) = [] /\ pd_exists (pd_clear P d) = false.
+Proof. exact (pd_clear_spec). Qed.
+Print Assumptions C10_data_clear.
+
+(* no leak: from any state of the free list in which the plan is empty, capacity consecutive appends succeed and the
+   next is refused *)
+Theorem C10_capacity_restored :
+  forall (P : Type) (cap : nat) (d : plan_data P) (ts : list (nat * nat)),
+         PlanInv P cap d [] ->
+         length ts = cap ->
+         exists d' : plan_data P,
+           append_all P cap d ts = (d', repeat true cap) /\
+           plan_tasks P cap d' = map (fun x : nat * nat => mk_task P (fst x) (snd x) None) ts /\
+           (forall o dst : nat, plan_append P cap d' o dst = (d', false)) /\
+           (forall (o dst : nat) (p : P), plan_append_with P cap d' o dst p = (pd_with_exists P d' true, false)).
+Proof. exact (capacity_restored). Qed.
+Print Assumptions C10_capacity_restored.
+
+(* ... and every state a machine reaches through any in-contract API history (consumption by firing, plan-outcome
+   clearing, exits, load included) is such a state *)
+Theorem C10_every_reachable_machine_state :
+  forall (P : Type) (cfg : config) (orc : oracle P),
+         wf_cfg cfg ->
+         wf_oracle P cfg orc ->
+         forall (lg : bool) (ops : list (api_op P)) (ts : list (nat * nat)),
+         ops_ok P cfg orc (construct P cfg orc lg) ops ->
+         let d := plan P (co P (run P cfg orc lg ops)) in
+         PIc P cfg d /\
+         (plan_tasks P (c_cap cfg) d = [] ->
+          length ts = c_cap cfg ->
+          exists d' : plan_data P,
+            append_all P (c_cap cfg) d ts = (d', repeat true (c_cap cfg)) /\
+            (forall o dst : nat, plan_append P (c_cap cfg) d' o dst = (d', false))).
+Proof. exact (reachable_plan_capacity). Qed.
+Print Assumptions C10_every_reachable_machine_state.
+
+Theorem C10_tasklist_init :
+  forall (P : Type) (cap : nat),
+         1 <= cap <= 255 ->
+         FL P cap {| t_head := 0; t_tail := 0; t_last := 0; t_count := 0; t_items := repeat (dslot P) cap |}
+           [0] [].
+Proof. exact (init_FL). Qed.
 Print Assumptions C10_tasklist_init.
 
-(* emplace on a full list reports INVALID (255) and changes nothing *)
-Theorem C10_tasklist_full : forall (P : Type) cap t vac occ o d p,
-  FL P cap t vac occ -> t_count t = cap -> emplace P cap t o d p = (t, INVALID).
-Proof. exact emplace_full. Qed.
+(* the slot allocator: emplace on a full list reports INVALID and changes nothing *)
+Theorem C10_tasklist_full :
+  forall (P : Type) (cap : nat) (t : tl P) (vac : list nat) (occ : list (nat * slot P)) 
+           (o d : nat) (p : option P),
+         FL P cap t vac occ -> t_count t = cap -> emplace P cap t o d p = (t, INVALID).
+Proof. exact (emplace_full). Qed.
 Print Assumptions C10_tasklist_full.
 
 (* emplace with room returns a slot that was vacant, stores the task there, keeps every occupied slot *)
-Theorem C10_tasklist_emplace : forall (P : Type) cap t vac occ o d p,
-  FL P cap t vac occ -> t_count t < cap ->
-  exists v0 rest, vac = v0 :: rest /\ snd (emplace P cap t o d p) = v0 /\ v0 < cap /\ ~ In v0 (map fst occ) /\
-    exists vac', FL P cap (fst (emplace P cap t o d p)) vac' ((v0, {| s_prev := o; s_next := d; s_pay := p |}) :: occ).
-Proof. exact emplace_FL. Qed.
+Theorem C10_tasklist_emplace :
+  forall (P : Type) (cap : nat) (t : tl P) (vac : list nat) (occ : list (nat * slot P)) 
+           (o d : nat) (p : option P),
+         FL P cap t vac occ ->
+         t_count t < cap ->
+         exists (v0 : nat) (rest : list nat),
+           vac = v0 :: rest /\
+           snd (emplace P cap t o d p) = v0 /\
+           v0 < cap /\
+           ~ In v0 (map fst occ) /\
+           (exists vac' : list nat,
+              FL P cap (fst (emplace P cap t o d p)) vac'
+                ((v0, {| s_prev := o; s_next := d; s_pay := p |}) :: occ)).
+Proof. exact (emplace_FL). Qed.
 Print Assumptions C10_tasklist_emplace.
 
-Theorem C10_tasklist_remove : forall (P : Type) cap t vac occ i,
-  FL P cap t vac occ -> In i (map fst occ) -> FL P cap (remove P cap t i) (i :: vac) (rem P i occ).
-Proof. exact remove_FL. Qed.
+Theorem C10_tasklist_remove :
+  forall (P : Type) (cap : nat) (t : tl P) (vac : list nat) (occ : list (nat * slot P)) (i : nat),
+         FL P cap t vac occ -> In i (map fst occ) -> FL P cap (remove P cap t i) (i :: vac) (rem P i occ).
+Proof. exact (remove_FL). Qed.
 Print Assumptions C10_tasklist_remove.
 
-Theorem C10_tasklist_clear : forall (P : Type) cap t vac occ, FL P cap t vac occ -> FL P cap (tl_clear P t) [0] [].
-Proof. exact clear_FL. Qed.
+Theorem C10_tasklist_clear :
+  forall (P : Type) (cap : nat) (t : tl P) (vac : list nat) (occ : list (nat * slot P)),
+         FL P cap t vac occ -> FL P cap (tl_clear P t) [0] [].
+Proof. exact (clear_FL). Qed.
 Print Assumptions C10_tasklist_clear.
 
-(* every history: the invariant holds after any sequence of operations that removes only occupied slots *)
-Theorem C10_tasklist_every_history : forall (P : Type) cap ops, 1 <= cap <= 255 ->
-  tl_ops_ok P cap ops (tl_init P cap) -> exists vac occ, FL P cap (tl_run P cap ops (tl_init P cap)) vac occ.
-Proof. exact tl_run_FL. Qed.
+Theorem C10_tasklist_every_history :
+  forall (P : Type) (cap : nat) (ops : list (tl_op P)),
+         1 <= cap <= 255 ->
+         tl_ops_ok P cap ops (tl_init P cap) ->
+         exists (vac : list nat) (occ : list (nat * slot P)),
+           FL P cap (tl_run P cap ops (tl_init P cap)) vac occ.
+Proof. exact (tl_run_FL). Qed.
 Print Assumptions C10_tasklist_every_history.
 
-(* no leak: from any reachable state with k slots occupied, cap - k further emplaces all succeed, and the next reports a full list *)
-Theorem C10_tasklist_no_leak : forall (P : Type) cap t vac occ tasks,
-  FL P cap t vac occ -> length occ + length tasks = cap ->
-  let '(t', idxs) := emplace_all P cap t tasks in
-  Forall (fun i => i < cap) idxs /\ length idxs = length tasks /\ NoDup idxs /\ t_count t' = cap /\
-  forall o d p, emplace P cap t' o d p = (t', INVALID).
-Proof. exact emplace_all_spec. Qed.
+Theorem C10_tasklist_no_leak :
+  forall (P : Type) (cap : nat) (t : tl P) (vac : list nat) (occ : list (nat * slot P))
+           (tasks : list (nat * nat * option P)),
+         FL P cap t vac occ ->
+         length occ + length tasks = cap ->
+         let
+         '(t', idxs) := emplace_all P cap t tasks in
+          Forall (fun i : nat => i < cap) idxs /\
+          length idxs = length tasks /\
+          NoDup idxs /\
+          t_count t' = cap /\ (forall (o d : nat) (p : option P), emplace P cap t' o d p = (t', INVALID)).
+Proof. exact (emplace_all_spec). Qed.
 Print Assumptions C10_tasklist_no_leak.
 
-Example C10_nonvacuous :
-  let t0 := tl_init unit 2 in
-  let '(t1, i1) := emplace unit 2 t0 0 1 None in
-  let '(t2, i2) := emplace unit 2 t1 1 0 None in
-  let '(t3, i3) := emplace unit 2 t2 1 1 None in
-  let t4 := remove unit 2 t3 0 in
-  let '(t5, i5) := emplace unit 2 t4 0 0 None in
-  (i1, i2, i3, i5) = (0, 1, 255, 0).
-Proof. vm_compute. reflexivity. Qed.
